@@ -187,6 +187,10 @@ def build_model():
 # Rust harness
 
 def build_harness(profile="release", features=None):
+    # development aid (bin/coverage): run the checks against a coverage-instrumented build of the same harness
+    over = os.environ.get("VERIF_HARNESS_" + profile.upper())
+    if over:
+        return over
     lock_src = os.path.join(REPO, "Cargo.lock")
     lock_dst = os.path.join(HARNESS, "Cargo.lock")
     if not os.path.exists(lock_dst):
